@@ -135,6 +135,54 @@ fn float_ctor(acc: &mut Acc, idx: u64, len: usize, w: usize, h: usize) {
     report(acc, "Rgb", guarded(|| Rgb::new(data.clone(), w, h, TC::BT470M, CP::Film).map(|i| if i.transfer() == TC::BT470M && i.primaries() == CP::Film { all_views!(i) } else { (vec![0xBAD], 0, 0) })));
 }
 
+fn rgb_labels(acc: &mut Acc, idx: u64, len: usize, w: usize, h: usize, t: TC, p: CP) {
+    acc.states += 1;
+    acc.transitions += 1;
+    let case = || json!({"kind":"c12labels","len":len,"w":w,"h":h,"transfer":format!("{t:?}"),"primaries":format!("{p:?}")});
+    let r = guarded(|| Rgb::new(vec![[0.25; 3]; len], w, h, t, p));
+    let ok = matches!(&r, Ok(Ok(i)) if i.data().len() == len && i.width() == w && i.height() == h);
+    let rej = matches!(&r, Ok(Err(CreationError::ResolutionMismatch)));
+    if (len == w * h && !ok) || (len != w * h && !rej) {
+        acc.violation(idx, "rgb-constructor-contract".into(), format!("Rgb::new(len {len}, {w}, {h}, {t:?}, {p:?}) -> {:?}", r.map(|x| x.map(|_| ()))), case());
+        return;
+    }
+    if let Ok(Ok(i)) = &r {
+        let t_ok = if t == TC::Unspecified { i.transfer() != TC::Unspecified } else { i.transfer() == t };
+        let p_ok = if p == CP::Unspecified { i.primaries() != CP::Unspecified } else { i.primaries() == p };
+        if !t_ok || !p_ok {
+            acc.violation(idx, "rgb-labels-not-kept".into(), format!("Rgb::new(.., {t:?}, {p:?}) exposes transfer {:?}, primaries {:?}", i.transfer(), i.primaries()), case());
+            return;
+        }
+    }
+    acc.bucket("Rgb::new over all label pairs: contract holds, labels kept", 1);
+}
+
+fn yuv_labels<T: Pixel>(acc: &mut Acc, idx: u64, depth: u8, m: yuvxyb::MatrixCoefficients, t: TC, p: CP) {
+    use yuvxyb::MatrixCoefficients as MC;
+    acc.states += 1;
+    acc.transitions += 1;
+    let cfg = crate::img::cfg_full(depth, false, (0, 0), m, t, p);
+    let case = || json!({"kind":"c12cfg","depth":depth,"u16":std::mem::size_of::<T>() == 2,"matrix":format!("{m:?}"),"transfer":format!("{t:?}"),"primaries":format!("{p:?}")});
+    let r = guarded(|| {
+        let f = yuvxyb::Frame { planes: [crate::img::plane_new::<T>(2, 2, 0, 0, 0, 0, |x, y| (16 + x + 2 * y) as u16, None), crate::img::plane_new::<T>(2, 2, 0, 0, 0, 0, |x, y| (100 + x + 2 * y) as u16, None), crate::img::plane_new::<T>(2, 2, 0, 0, 0, 0, |x, y| (200 + x + 2 * y) as u16, None)] };
+        Yuv::<T>::new(f, cfg).map(|y| (y.config(), y.width(), y.height(), crate::img::plane_samples(&y.data()[0]), crate::img::plane_samples(&y.data()[1]), crate::img::plane_samples(&y.data()[2])))
+    });
+    match r {
+        Ok(Ok((c, w, h, py, pu, pv))) => {
+            let m_ok = if m == MC::Unspecified { c.matrix_coefficients != MC::Unspecified } else { c.matrix_coefficients == m };
+            let t_ok = if t == TC::Unspecified { c.transfer_characteristics != TC::Unspecified } else { c.transfer_characteristics == t };
+            let p_ok = if p == CP::Unspecified { c.color_primaries != CP::Unspecified } else { c.color_primaries == p };
+            let rest = c.bit_depth == depth && c.subsampling_x == 0 && c.subsampling_y == 0 && !c.full_range && (w, h) == (2, 2) && py == [16, 17, 18, 19] && pu == [100, 101, 102, 103] && pv == [200, 201, 202, 203];
+            if !(m_ok && t_ok && p_ok && rest) {
+                acc.violation(idx, "yuv-config-not-kept".into(), format!("Yuv::new(2x2, {cfg:?}) exposes {c:?}, {w}x{h}, planes {py:?} {pu:?} {pv:?}"), case());
+            } else {
+                acc.bucket("Yuv::new over all metadata triples: accepted, config kept", 1);
+            }
+        }
+        other => acc.violation(idx, "well-formed-frame-rejected-or-panic".into(), format!("Yuv::new(2x2, {cfg:?}) -> {:?}", other.map(|r| r.map(|_| ()))), case()),
+    }
+}
+
 pub fn run(tier: Tier) -> Report {
     let mut rep = Report::new("C12");
     // (1) small box, full product
@@ -209,29 +257,25 @@ pub fn run(tier: Tier) -> Report {
         }
     });
     rep.acc.merge(acc);
-    // Rgb with every label pair at a few sizes
+    // every label pair / metadata triple: an accepted image exposes the metadata it was given
+    // (an Unspecified field may come back resolved, a specified one must come back as given)
     {
         let mut acc = Acc::default();
         for &t in crate::refmodel::ALL_TRANSFERS.iter() {
             for &p in crate::refmodel::ALL_PRIMARIES.iter() {
                 for (len, w, h) in [(6usize, 3usize, 2usize), (5, 3, 2), (0, 0, 7)] {
-                    acc.states += 1;
-                    acc.transitions += 1;
-                    let r = guarded(|| Rgb::new(vec![[0.25; 3]; len], w, h, t, p));
-                    let ok = matches!(&r, Ok(Ok(i)) if i.data().len() == len && i.width() == w && i.height() == h);
-                    let rej = matches!(&r, Ok(Err(CreationError::ResolutionMismatch)));
-                    if (len == w * h && !ok) || (len != w * h && !rej) {
-                        acc.violation(base_idx, "rgb-constructor-contract".into(), format!("Rgb::new(len {len}, {w}, {h}, {t:?}, {p:?}) -> {:?}", r.map(|x| x.map(|_| ()))), json!({"kind":"c12float","len":len,"w":w,"h":h}));
-                    } else {
-                        acc.bucket("Rgb::new over all label pairs: contract holds", 1);
-                    }
+                    rgb_labels(&mut acc, base_idx, len, w, h, t, p);
+                }
+                for &m in crate::refmodel::ALL_MATRICES.iter() {
+                    yuv_labels::<u8>(&mut acc, base_idx, 8, m, t, p);
+                    yuv_labels::<u16>(&mut acc, base_idx, 10, m, t, p);
                 }
             }
         }
         rep.acc.merge(acc);
     }
     rep.bound = format!(
-        "(1) full product of luma w,h in 1..={} x common chroma size 0..=w+1 x 0..=h+1 x chroma decimation 0..=2^2 x config subsampling 0..=2^2 x u8/u16 x padding {{0,1,17}} = {} frames; (2) every well-formed base with luma sizes in {:?}, valid subsampling, (u8,8)/(u16,10)/(u16,16), padding {{0,1,17}} ({} bases) with every single deviation and (sizes <= 12) every pair of deviations (chroma size, decimation, config subsampling, luma size, per-plane padding, from_slice construction, one out-of-range sample); (3) one out-of-range sample (2^n, 2^n+1, 65535) at EVERY raw buffer position (visible and padding) of every plane for {} geometries x depths 8..15; (4) all (len,w,h) in 0..=40 cubed for the four float constructors, all 19x14 label pairs for Rgb::new",
+        "(1) full product of luma w,h in 1..={} x common chroma size 0..=w+1 x 0..=h+1 x chroma decimation 0..=2^2 x config subsampling 0..=2^2 x u8/u16 x padding {{0,1,17}} = {} frames; (2) every well-formed base with luma sizes in {:?}, valid subsampling, (u8,8)/(u16,10)/(u16,16), padding {{0,1,17}} ({} bases) with every single deviation and (sizes <= 12) every pair of deviations (chroma size, decimation, config subsampling, luma size, per-plane padding, from_slice construction, one out-of-range sample); (3) one out-of-range sample (2^n, 2^n+1, 65535) at EVERY raw buffer position (visible and padding) of every plane for {} geometries x depths 8..15; (4) all (len,w,h) in 0..=40 cubed for the four float constructors, all 19x14 label pairs for Rgb::new and all 15x19x14 metadata triples for Yuv::new (u8/8 bit, u16/10 bit): specified metadata is exposed as given",
         tier.pick(5, 7), sb.len(), dev_sizes(tier == Tier::Thorough), bs.len(), sweeps.len()
     );
     rep.rule = "Yuv::new verdict vs the reference predicate transcribed from the statement (accept <=> predicate; on reject the variant must name a violated condition; padding samples never matter; accepted images are verbatim); float constructors: Ok <=> len == w*h else ResolutionMismatch, data verbatim".into();
@@ -246,6 +290,8 @@ pub fn run(tier: Tier) -> Report {
     rep.guard_bucket("rejected: InvalidData");
     rep.guard_bucket("float constructor: accepted, verbatim");
     rep.guard_bucket("float constructor: ResolutionMismatch");
+    rep.guard_bucket("Rgb::new over all label pairs: contract holds, labels kept");
+    rep.guard_bucket("Yuv::new over all metadata triples: accepted, config kept");
     rep
 }
 
@@ -253,6 +299,16 @@ pub fn replay(case: &Value) -> (bool, String) {
     let mut acc = Acc::default();
     if case["kind"] == "c12" {
         check_spec(&mut acc, 0, &FSpec::from_json(&case["spec"]), "replay");
+    } else if case["kind"] == "c12labels" {
+        let g = |k: &str| case[k].as_u64().unwrap() as usize;
+        rgb_labels(&mut acc, 0, g("len"), g("w"), g("h"), crate::refmodel::tc_from_name(case["transfer"].as_str().unwrap()), crate::refmodel::cp_from_name(case["primaries"].as_str().unwrap()));
+    } else if case["kind"] == "c12cfg" {
+        let (m, t, p) = (crate::refmodel::mc_from_name(case["matrix"].as_str().unwrap()), crate::refmodel::tc_from_name(case["transfer"].as_str().unwrap()), crate::refmodel::cp_from_name(case["primaries"].as_str().unwrap()));
+        if case["u16"] == true {
+            yuv_labels::<u16>(&mut acc, 0, case["depth"].as_u64().unwrap() as u8, m, t, p)
+        } else {
+            yuv_labels::<u8>(&mut acc, 0, case["depth"].as_u64().unwrap() as u8, m, t, p)
+        }
     } else {
         float_ctor(&mut acc, 0, case["len"].as_u64().unwrap() as usize, case["w"].as_u64().unwrap() as usize, case["h"].as_u64().unwrap() as usize);
     }
